@@ -1,5 +1,6 @@
 import Bxh.Model.Lifecycle
 import Bxh.Gen.Cascade
+import Bxh.Gen.SubmissionCascade
 /-!
 # C16 — "an approved freeze or logout of an appchain makes all its services unusable for interchain": the cascade, at the dispatch level
 
@@ -31,5 +32,17 @@ theorem C16_services_released_only_by_activation_or_rejected_logout :
 /-- … and an approved freeze or logout never releases them -/
 theorem C16_freeze_and_logout_never_release :
     "UnPauseChainService" ∉ cascadeOf "approve" "freeze" ∧ "UnPauseChainService" ∉ cascadeOf "approve" "logout" := by decide
+
+/-- **while the operation is pending**: a logout request takes an appchain to `logouting`, an update request to `updating` — neither
+is an available status — and both entries pause the chain's services themselves, on every successful path (nesting depth 0 in the
+extracted call list: no `if` decides whether the cascade runs); a freeze request leaves the chain usable (`freezing` is an available
+status) and pauses nothing -/
+theorem C16_pending_logout_and_update_pause_unconditionally :
+    (∃ st, step (tableOf "appchain") "available" "logout" "available" = some st ∧ isAvailable "appchain" st = false) ∧
+    ("LogoutAppchain", "PauseChainService", 0) ∈ Bxh.Gen.appchainSubmissionCascade ∧
+    (∃ st, step (tableOf "appchain") "available" "update" "available" = some st ∧ isAvailable "appchain" st = false) ∧
+    ("UpdateAppchain", "PauseChainService", 0) ∈ Bxh.Gen.appchainSubmissionCascade ∧
+    (∃ st, step (tableOf "appchain") "available" "freeze" "available" = some st ∧ isAvailable "appchain" st = true) ∧
+    (∀ r ∈ Bxh.Gen.appchainSubmissionCascade, r.1 = "FreezeAppchain" → r.2.1 ≠ "PauseChainService") := by decide
 
 end Bxh.Props.C16
